@@ -12,7 +12,7 @@
 (*               formulas (C07)                                            *)
 (*   BallSound : every trace within |rho| of W has the same verdict (C07)  *)
 (***************************************************************************)
-EXTENDS Dense
+EXTENDS Dense, Offline
 
 CONSTANTS Pairs, Forms, Vars, Vals, MaxLen, S
 
@@ -81,6 +81,11 @@ DenseEqDiscrete == LET N == LenOf(W) IN N > 0 =>
    \A p \in Forms : C19Frag(p) =>
       LET d == Sig(p, W, N, S, StdMode) c == SigC(p, W, N, S, StdMode) h == Hor(p) IN
       \A k \in 1..N : (k + h <= N) => (d[k] = Undef \/ c[k] = Undef \/ d[k] = c[k])
+
+\* C01 / C16: the list algorithms of the offline visitors (Offline.tla) compute the declarative semantics
+OfflineRefines == LET N == LenOf(W) IN N > 0 =>
+   \A p \in Forms : LET a == OffEval(p, W, N, S, StdMode) b == Sig(p, W, N, S, StdMode) IN
+                    Len(a) = N /\ \A t \in 1..N : a[t] = Undef \/ b[t] = Undef \/ a[t] = b[t]
 
 \* C07, sign: strictly positive robustness implies satisfaction, strictly negative implies violation
 IffXorFree(p) == ~HasOp(p, {"iff", "xor"})
